@@ -269,7 +269,7 @@ fn theta_case(ctx: &mut Ctx, case: &Json) {
         // an update
         let h = if lane == "public" {
             let x = rng.below(domain);
-            let (h, what) = match rng.below(3) {
+            let (h, what) = match rng.below(5) {
                 0 => {
                     let item = (salt, x);
                     run.sk.update(item);
@@ -280,12 +280,24 @@ fn theta_case(ctx: &mut Ctx, case: &Json) {
                     run.sk.update(item.as_str());
                     (refhash::murmur3_x64_128(&rt::hashed_bytes(&item.as_str()), hseed).0 >> 1, "update(str)")
                 }
-                _ => {
+                2 => {
                     let v = (x as f64) * 0.5 - 3.0;
                     run.sk.update_f64(v);
                     // canonical double: +0.0 for both zeros; hashed as the u64 bit pattern
                     let bits = if v == 0.0 { 0u64 } else { v.to_bits() };
                     (refhash::murmur3_x64_128(&rt::hashed_bytes(&bits), hseed).0 >> 1, "update_f64")
+                }
+                3 => {
+                    // both zeros, every NaN, infinities, subnormals: one canonical bit pattern each
+                    let v = rt::special_f64(&mut rng);
+                    run.sk.update_f64(v);
+                    (refhash::murmur3_x64_128(&rt::hashed_bytes(&rt::canonical_f64_bits(v)), hseed).0 >> 1, "update_f64(special)")
+                }
+                _ => {
+                    // a single is the double it widens to
+                    let v = rt::special_f32(&mut rng);
+                    run.sk.update_f32(v);
+                    (refhash::murmur3_x64_128(&rt::hashed_bytes(&rt::canonical_f64_bits(v as f64)), hseed).0 >> 1, "update_f32")
                 }
             };
             run.model.offer(h);
